@@ -234,11 +234,30 @@ def fnsOK : SqlExpr → Bool
   | .cast a _ => fnsOK a
   | .alias a _ => fnsOK a
 
+/-- every literal leaf is text the engine reads as a literal (a numeric literal whose text is not a number —
+    a bare `inf` — is an identifier to the engine: "column not found") -/
+def litsOK : SqlExpr → Bool
+  | .col _ => true
+  | .lit l => l.value?.isSome
+  | .paren a => litsOK a
+  | .bin _ a b => litsOK a && litsOK b
+  | .un _ a => litsOK a
+  | .isNull a => litsOK a
+  | .inList a ls => litsOK a && ls.all (fun l => l.value?.isSome)
+  | .between a lo hi => litsOK a && litsOK lo && litsOK hi
+  | .fn2 _ a b => litsOK a && litsOK b
+  | .fn3 _ a b c => litsOK a && litsOK b && litsOK c
+  | .caseWhen c v rest => litsOK c && litsOK v && litsOK rest
+  | .caseEnd => true
+  | .caseElse d => litsOK d
+  | .cast a _ => litsOK a
+  | .alias a _ => litsOK a
+
 /-- what `SELECT <rendered t>` returns for one row (`none`: the engine raises) -/
-def engineValue (env : Env) (t : SqlExpr) : Option Val :=
+def engineValue (env : Env) (t : SqlExpr) : Option CVal :=
   match engineTop t with
   | none => none
-  | some t' => if fnsOK t' then some (evalSql env t') else none
+  | some t' => if fnsOK t' && litsOK t' then some (evalSql env t') else none
 
 /-! ## scope hypotheses (one per root cause), on the user's tree -/
 
@@ -246,6 +265,7 @@ def engineValue (env : Env) (t : SqlExpr) : Option Val :=
 def allNodes (p : PyExpr → Bool) : PyExpr → Bool
   | .col n => p (.col n)
   | .lit v => p (.lit v)
+  | .raw s v => p (.raw s v)
   | .arith op a b => p (.arith op a b) && allNodes p a && allNodes p b
   | .arithL op v b => p (.arithL op v b) && allNodes p b
   | .cmp op a b => p (.cmp op a b) && allNodes p a && allNodes p b
@@ -274,6 +294,7 @@ def allNodes (p : PyExpr → Bool) : PyExpr → Bool
 def atomicP (cfg : Cfg) : PyExpr → Bool
   | .col _ => true
   | .lit _ => true
+  | .raw _ _ => true
   | .arith _ _ _ => true
   | .arithL _ _ _ => true
   | .cmp op _ _ => (cfg.cmp op).paren
@@ -326,16 +347,97 @@ def reflAt : PyExpr → Bool
   | .logicL _ _ b => notReflected b
   | _ => true
 
-/-- the built expression carries no alias: neither an explicit one nor the automatic one of a `when` chain -/
-def notAlias : PyExpr → Bool
+/-- the built expression carries no alias: neither an explicit one nor the automatic one the decorator puts
+    on a `when` chain or on a `lit(...)` that is written as a function (NaN) -/
+def notAlias (cfg : Cfg) : PyExpr → Bool
   | .alias _ _ => false
   | .when _ _ _ => false
+  | .lit v => !fnAliased cfg.lit v
+  | .raw s v => !(cfg.coerce s == .litFn && fnAliased cfg.lit v)
   | _ => true
 
-/-- no bound of `between` carries an alias (explicit, or the automatic one of `F.when(...)`) -/
-def boundAt : PyExpr → Bool
-  | .between _ lo hi => notAlias lo && notAlias hi
+/-- no bound of `between` carries an alias (explicit, or the automatic one of `F.when(...)` / `F.lit(nan)`) -/
+def boundAt (cfg : Cfg) : PyExpr → Bool
+  | .between _ lo hi => notAlias cfg lo && notAlias cfg hi
   | _ => true
+
+/-- every plain Python value at this node is written as a literal the engine reads back as that value -/
+def litAt (cfg : Cfg) : PyExpr → Bool
+  | .lit v => readsBack (fnNode cfg.lit v) v
+  | .raw s v => readsBack (coerceNode cfg.lit (cfg.coerce s) v) v
+  | .arithL _ v _ => readsBack (coerceNode cfg.lit cfg.coInverse v) v
+  | .cmpL _ v _ => readsBack (coerceNode cfg.lit cfg.coBinary v) v
+  | .logicL _ v _ => readsBack (coerceNode cfg.lit cfg.coInverse v) v
+  | .isin _ vs => vs.all (fun v => readsBack (coerceNode cfg.lit cfg.coIsin v) v)
+  | .like _ p => readsBack (coerceNode cfg.lit cfg.coLike (.str p)) (.str p)
+  | _ => true
+
+/-- the plain Python values written at this node -/
+def pyValsAt : PyExpr → List PyVal
+  | .lit v => [v]
+  | .raw _ v => [v]
+  | .arithL _ v _ => [v]
+  | .cmpL _ v _ => [v]
+  | .logicL _ v _ => [v]
+  | .isin _ vs => vs
+  | .like _ p => [.str p]
+  | _ => []
+
+/-- representation invariant: every float of the node is given by genuine digits -/
+def wfAt (n : PyExpr) : Bool := (pyValsAt n).all PyVal.wf
+/-- no ±inf at this node -/
+def finiteAt (n : PyExpr) : Bool := (pyValsAt n).all PyVal.finite
+
+/-- every ±inf written at this node goes through a coercion that handles ±inf -/
+def infAt (cfg : Cfg) : PyExpr → Bool
+  | .lit v => infVia cfg.lit .litFn v
+  | .raw s v => infVia cfg.lit (cfg.coerce s) v
+  | .arithL _ v _ => infVia cfg.lit cfg.coInverse v
+  | .cmpL _ v _ => infVia cfg.lit cfg.coBinary v
+  | .logicL _ v _ => infVia cfg.lit cfg.coInverse v
+  | .isin _ vs => vs.all (infVia cfg.lit cfg.coIsin)
+  | _ => true
+
+/-- `infAt` restricted to the occurrences whose coercion satisfies `sel` (only used to *name* what is violated) -/
+def infAtSel (sel : Gen.Coerce → Bool) (cfg : Cfg) : PyExpr → Bool
+  | .lit v => !sel .litFn || infVia cfg.lit .litFn v
+  | .raw s v => !sel (cfg.coerce s) || infVia cfg.lit (cfg.coerce s) v
+  | .arithL _ v _ => !sel cfg.coInverse || infVia cfg.lit cfg.coInverse v
+  | .cmpL _ v _ => !sel cfg.coBinary || infVia cfg.lit cfg.coBinary v
+  | .logicL _ v _ => !sel cfg.coInverse || infVia cfg.lit cfg.coInverse v
+  | .isin _ vs => !sel cfg.coIsin || vs.all (infVia cfg.lit cfg.coIsin)
+  | _ => true
+
+/-- a plain Python value stands where its `Site` tag says (bookkeeping of the test harness, not a hypothesis
+    of any theorem: `build` takes the coercion from the tag) -/
+def siteAt : PyExpr → Bool
+  | .arith _ a b => (match a with | .raw _ _ => false | _ => true) && (match b with | .raw s _ => s == .binary | _ => true)
+  | .cmp _ a b => (match a with | .raw _ _ => false | _ => true) && (match b with | .raw s _ => s == .binary | _ => true)
+  | .logic _ a b => (match a with | .raw _ _ => false | _ => true) && (match b with | .raw s _ => s == .binary | _ => true)
+  | .eqNullSafe a b => (match a with | .raw _ _ => false | _ => true) && (match b with | .raw s _ => s == .binary | _ => true)
+  | .between a lo hi =>
+      (match a with | .raw _ _ => false | _ => true)
+      && (match lo with | .raw s _ => s == .between | _ => true) && (match hi with | .raw s _ => s == .between | _ => true)
+  | .strFn f a b => (match a with | .raw _ _ => false | _ => true) && (match b with | .raw s _ => s == .strFn f | _ => true)
+  | .substr a st len =>
+      (match a with | .raw _ _ => false | _ => true)
+      && (match st with | .raw s _ => s == .substr | _ => true) && (match len with | .raw s _ => s == .substr | _ => true)
+  | .when c v _ => (match c with | .raw _ _ => false | _ => true) && (match v with | .raw s _ => s == .when | _ => true)
+  | .otherwise d => (match d with | .raw s _ => s == .otherwise | _ => true)
+  | .arithL _ _ b => (match b with | .raw _ _ => false | _ => true)
+  | .cmpL _ _ b => (match b with | .raw _ _ => false | _ => true)
+  | .logicL _ _ b => (match b with | .raw _ _ => false | _ => true)
+  | .neg a => (match a with | .raw _ _ => false | _ => true)
+  | .not a => (match a with | .raw _ _ => false | _ => true)
+  | .isNull a => (match a with | .raw _ _ => false | _ => true)
+  | .isNotNull a => (match a with | .raw _ _ => false | _ => true)
+  | .isin a _ => (match a with | .raw _ _ => false | _ => true)
+  | .like a _ => (match a with | .raw _ _ => false | _ => true)
+  | .cast a _ => (match a with | .raw _ _ => false | _ => true)
+  | .alias a _ => (match a with | .raw _ _ => false | _ => true)
+  | _ => true
+
+def sitesOK (e : PyExpr) : Bool := (match e with | .raw _ _ => false | _ => true) && allNodes siteAt e
 
 def endswithAt : PyExpr → Bool
   | .strFn .endswith _ _ => false
@@ -362,14 +464,22 @@ def H_predSubjectAtomic (cfg : Cfg) (e : PyExpr) : Bool := fixSubj cfg || allNod
 def H_reflectedBoolParen (cfg : Cfg) (e : PyExpr) : Bool := fixRefl cfg || allNodes reflAt e
 
 /-- H_betweenBoundUnaliased: `between` un-aliases its bounds, or no bound carries an alias -/
-def H_betweenBoundUnaliased (cfg : Cfg) (e : PyExpr) : Bool := fixBound cfg || allNodes boundAt e
+def H_betweenBoundUnaliased (cfg : Cfg) (e : PyExpr) : Bool := fixBound cfg || allNodes (boundAt cfg) e
+
+/-- H_floatLitFinite: every ±inf of the program is written through a coercion whose regenerated chain writes it in a
+    way the engine reads back (`infHandledVia`), i.e. per occurrence: the route handles ±inf, or the value is finite.
+    (On the pinned tree `Column._lit` — the route of plain operands — writes `CAST('Infinity' AS DOUBLE)`, while
+    `functions.lit` — `lit(inf)`, `when(c, inf)`, `.otherwise(inf)` — still writes the *string* 'inf'.)  Every other
+    value is read back as itself: `C05_lit_readsBack`; with this hypothesis `allNodes (litAt cfg) e` holds
+    (`C05_lits_readBack`). -/
+def H_floatLitFinite (cfg : Cfg) (e : PyExpr) : Bool := allNodes (infAt cfg) e
 
 /-- H_endswithFunction: `endswith` goes through the session's engine-specific function, or is not used -/
 def H_endswithFunction (cfg : Cfg) (e : PyExpr) : Bool := fixEndswith cfg || allNodes endswithAt e
 
 def inScope (cfg : Cfg) (e : PyExpr) : Bool :=
   H_cmpOperandAtomic cfg e && H_predSubjectAtomic cfg e && H_reflectedBoolParen cfg e
-  && H_betweenBoundUnaliased cfg e && H_endswithFunction cfg e
+  && H_betweenBoundUnaliased cfg e && H_endswithFunction cfg e && H_floatLitFinite cfg e
 
 /-- names of the violated hypotheses (what the driver reports) -/
 def violated (cfg : Cfg) (e : PyExpr) : List String :=
@@ -378,5 +488,12 @@ def violated (cfg : Cfg) (e : PyExpr) : List String :=
   ++ (if H_reflectedBoolParen cfg e then [] else ["H_reflectedBoolParen"])
   ++ (if H_betweenBoundUnaliased cfg e then [] else ["H_betweenBoundUnaliased"])
   ++ (if H_endswithFunction cfg e then [] else ["H_endswithFunction"])
+  -- the finding on record is about the `functions.lit` route; a ±inf mis-written on a plain-operand route gets its
+  -- own name, so that it can never hide behind that finding
+  ++ (if allNodes (infAtSel (fun k => k == .litFn) cfg) e then [] else ["H_floatLitFinite"])
+  ++ (if allNodes (infAtSel (fun k => k != .litFn) cfg) e then [] else ["X_infOperandNotReadBack"])
+  -- never on a tree whose chains satisfy `litChainOK` (`C05_lits_readBack`); reported so that a literal which is not
+  -- ±inf and is not read back can never hide behind the finding about ±inf
+  ++ (if H_floatLitFinite cfg e && !allNodes (litAt cfg) e then ["X_literalNotReadBack"] else [])
 
 end Sqlframe.C05
